@@ -26,6 +26,7 @@ of another class `{"o":str|null}` (its `str()`, `null` when that raises).  Excep
   {"op":"dc","key":{"s":str}|{"l":[str,…]},"items":[V|null,…]} -> {"calls":[{"r":V|null},…]}
   {"op":"setctx","key":str,"value":V,"ctxs":[V,…]} -> {"init":"ok"|exc,"get0":…,"steps":[{"set":"ok"|exc,"get":{"r":V}|{"e":..}},…]}
   {"op":"pyeq","vs":[V,…]}                         -> {"r":[[bool,…],…]}   (pyEq of every pair)
+  {"op":"to_string_j","vs":[J,…]}                  -> {"r":[{"r":str}|{"e":..},…]}   J: as V, and {"D":[[scalar,J],…]} a dictionary with any scalar keys
   {"op":"jinja","t":str}                           -> {"r":[["lit",s]|["field",[..]],…]}|{"e":"syntax"|"foreign"} -/
 open Lean Lena.Drv Lena.C08
 
@@ -60,6 +61,32 @@ partial def ofVal : Val → Json
   | .leaf (.obj o) => Json.mkObj [("o", match o with | some s => Json.str s | none => Json.null)]
   | .list xs => Json.mkObj [("L", Json.arr (xs.map ofVal).toArray)]
   | .dict es => Json.mkObj [("d", Json.arr (es.map (fun (k, v) => Json.arr #[Json.str k, ofVal v])).toArray)]
+
+partial def toJVal (j : Json) : Option JVal :=
+  match j with
+  | .obj _ =>
+    match arr? (getD j "D"), arr? (getD j "d"), arr? (getD j "L") with
+    | some a, _, _ => (a.toList.mapM (fun e => match arr? e with
+        | some #[k, v] =>
+          match toVal k, toJVal v with
+          | some (.leaf kl), some jv => some (kl, jv)
+          | _, _ => none
+        | _ => none)).map JVal.dict
+    | _, some a, _ => (a.toList.mapM (fun e => match arr? e with
+        | some #[k, v] =>
+          match str? k, toJVal v with
+          | some ks, some jv => some (Leaf.str ks, jv)
+          | _, _ => none
+        | _ => none)).map JVal.dict
+    | _, _, some a => (a.toList.mapM toJVal).map JVal.list
+    | _, _, _ =>
+      match toVal j with
+      | some (.leaf a) => some (.leaf a)
+      | _ => none
+  | _ =>
+    match toVal j with
+    | some (.leaf a) => some (.leaf a)
+    | _ => none
 
 def excName : Exc → String
   | .lenaTypeError => "LenaTypeError"
@@ -288,6 +315,10 @@ def handle (j : Json) : Json :=
     match valList? (getD j "vs") with
     | some vs => Json.mkObj [("r", ofList (fun v => ofRes (fun t => Json.str (String.join (t.map Tok.spell))) (toStringE v)) vs)]
     | none => err "bad to_string args"
+  | some "to_string_j" =>
+    match (arr? (getD j "vs")).bind (fun a => a.toList.mapM toJVal) with
+    | some vs => Json.mkObj [("r", ofList (fun v => ofRes (fun t => Json.str (String.join (t.map Tok.spell))) (jTokens v)) vs)]
+    | none => err "bad to_string_j args"
   | some "spec" => handleSpec j
   | some "context" =>
     match (arr? (getD j "items")).bind (fun x => x.toList.mapM toItem), strList? (getD j "names") with
